@@ -132,6 +132,15 @@ class PathState:
         t = cond.t if isinstance(cond, SBool) else cond
         self._add(self._scoped(t))
 
+    def assume_unscoped(self, cond):
+        """A fact about a symbolic object itself (shape constraint, invariant): the object is cached and
+        outlives the merge scope it happens to be created in, so the fact must not be guarded by it."""
+        if isinstance(cond, bool):
+            if not cond:
+                self.assume(cond)
+            return
+        self._add(cond.t if isinstance(cond, SBool) else cond)
+
     def _add(self, t):
         self.pc.append(t)
         # The feasibility solver only sees quantifier-free facts: satisfiability of quantified
